@@ -1,6 +1,7 @@
 package main
 
 import (
+	"github.com/failsafe-go/failsafe-go/circuitbreaker"
 	"context"
 	"errors"
 	"fmt"
@@ -137,6 +138,11 @@ func stressAdapterLeaks(seed int64, scale int) int {
 				w.Write([]byte("unavailable, try again"))
 				return
 			}
+		case "ra503":
+			w.Header().Set("Retry-After", "1")
+			w.WriteHeader(503)
+			w.Write([]byte(strings.Repeat("x", 70000)))
+			return
 		case "first503":
 			c, _ := hrCalls.LoadOrStore("first503-"+r.URL.Query().Get("call"), new(atomic.Int32))
 			if c.(*atomic.Int32).Add(1) == 1 {
@@ -278,6 +284,34 @@ func stressAdapterLeaks(seed int64, scale int) int {
 			resp.Body.Close()
 		}
 		v.count("http/retried-body-stalls")
+	}
+	// the documented delay function under a circuit breaker: the response that opens the breaker is the one the caller receives,
+	// and its body is the caller's to read
+	for i := 0; i < runs/12+1; i++ {
+		cb := circuitbreaker.Builder[*http.Response]().HandleIf(func(r *http.Response, err error) bool { return r != nil && r.StatusCode == 503 }).
+			WithFailureThreshold(1).WithDelayFunc(failsafehttp.DelayFunc).Build()
+		ex := failsafe.NewExecutor[*http.Response](cb)
+		req, _ := http.NewRequestWithContext(callerCtx, "GET", srv.URL+"/?mode=ra503", nil)
+		var resp *http.Response
+		var err error
+		if i%2 == 0 {
+			resp, err = (&http.Client{Transport: failsafehttp.NewRoundTripperWithExecutor(ct, ex)}).Do(req)
+		} else {
+			resp, err = failsafehttp.NewRequestWithExecutor(req, &http.Client{Transport: ct}, ex).Do()
+		}
+		if err != nil || resp == nil {
+			v.add(fmt.Sprintf("breaker with the HTTP delay function: the 503 that opens it is returned, yet the call reported %v", err))
+		} else {
+			n, rerr := io.Copy(io.Discard, resp.Body)
+			resp.Body.Close()
+			if rerr != nil || n != 70000 {
+				v.add(fmt.Sprintf("breaker with the HTTP delay function: the returned response's body read %d of 70000 bytes (%v)", n, rerr))
+			}
+			if !cb.IsOpen() || cb.RemainingDelay() > time.Second || cb.RemainingDelay() < 500*time.Millisecond {
+				v.add(fmt.Sprintf("breaker with the HTTP delay function: after a 503 with Retry-After: 1 the breaker is open=%v with %v remaining", cb.IsOpen(), cb.RemainingDelay()))
+			}
+		}
+		v.count("http/breaker-delay-func")
 	}
 	// a retried response followed by an attempt that fails before anything is sent (the request body cannot be rewound once it
 	// has been consumed): the retried response is released all the same
